@@ -194,6 +194,9 @@ func writeEvidence(path, prop, tier string, cfg *PropConfig, reps []*FuncReport,
 		"not_decided": cfg.NotDecided, "engine_warnings": warnings, "engine_errors": res.EngineErrors,
 		"explanation": "contract-based deductive verification: weakest-precondition style symbolic execution of go/ssa of the functions listed, callees replaced by contracts, loops by invariants; each obligation raced on z3 4.8.12 / z3 5.1.0 / cvc5 1.0",
 	}
+	for k, v := range res.Extras {
+		cov[k] = v
+	}
 	ev := map[string]interface{}{
 		"property_id": prop, "tier": tier, "seed": seedFromEnv(), "level": level, "coverage": cov,
 		"assumptions": tb, "wall_s": res.WallS, "violations": res.Violations,
